@@ -146,6 +146,66 @@ def _run(ctx):
     ctx.ob("R-TABLE", "inline-image|one-separator-after-ID", oks, "the `ID` tag is followed by a parser that takes one white-space byte (or CR LF): %s" % (sorted(lang) if lang is not None else "?"), ii.where(),
            what="after `ID` the content parser can take more than the one separator (it accepts %s): image data that begins with a white-space byte loses it, the data is shifted and the content stream changes or no longer decodes"
                 % (sorted(lang) if lang is not None else "an unbounded run (or a parser the rule does not know)"))
+    # the number of data bytes: every row is padded to a whole byte — height x ceil(width x components x bits / 8) (ISO 32000-1
+    # 8.9.3), folded from the expression handed to `take` over a sample of the parameter space
+    import symeval
+    ids0 = F.fn("parser::image_data_stream")
+    takes = [c for c in ids0.calls if (c.fn or "").endswith("complete::take")]
+    badlen, npts = [], 0
+
+    def key_of_call(b2, o, depth=8):
+        cur = o
+        for _ in range(depth):
+            q = op_place_(cur)
+            if q is None:
+                return None
+            d = b2.single_def(q["l"])
+            if d is None:
+                return None
+            if d[2] == "rv" and d[3]["k"] in ("use", "cast"):
+                cur = d[3]["o"]
+                continue
+            if d[2] == "rv" and d[3]["k"] == "ref":
+                cur = {"c": d[3]["p"]}
+                continue
+            if d[2] == "call":
+                fn_ = d[3]["f"].get("fn") or ""
+                if fn_.endswith("ops::Fn::call") and len(d[3]["args"]) == 2:
+                    td = b2.def_rv(d[3]["args"][1])
+                    if td and td[2] == "rv" and td[3]["k"] == "agg" and td[3]["ops"]:
+                        return lib._const_bytes_through(b2, td[3]["ops"][0])
+                    return None
+                if d[3]["args"]:
+                    cur = d[3]["args"][0]
+                    continue
+            return None
+        return None
+    if len(takes) == 1:
+        for w_ in (1, 5, 8, 13):
+            for h_ in (1, 3, 4):
+                for bpc_ in (1, 4, 8):
+                    for ncol in (1, 3, 4):
+                        env = {b"W": w_, b"H": h_, b"BPC": bpc_}
+
+                        def leaf(b2, kind, x, env=env, ncol=ncol):
+                            if kind == "call" and (x["f"].get("fn") or "").endswith("Object::as_i64") and x["args"]:
+                                k = key_of_call(b2, x["args"][0])
+                                return env.get(k)
+                            if kind == "operand":
+                                q = op_place_(x)
+                                if q is not None and not q["p"]:
+                                    ds = b2.defs.get(q["l"], [])
+                                    ks = [op_const_(d[3]["o"]) for d in ds if d[2] == "rv" and d[3]["k"] == "use"]
+                                    if len(ds) >= 3 and len(ks) == len(ds) and all(k is not None and "int" in k for k in ks) and str(ncol) in [str(k["int"]) for k in ks]:
+                                        return ncol       # the number of colour components, chosen by the colour space name
+                            return None
+                        got = symeval.Eval(F, ids0, leaf).val(takes[0].args[0])
+                        npts += 1
+                        want_ = h_ * ((w_ * ncol * bpc_ + 7) // 8)
+                        if got != want_:
+                            badlen.append((w_, h_, bpc_, ncol, got, want_))
+    ctx.ob("R-TABLE", "inline-image|data-length", len(takes) == 1 and not badlen, "take(height x ceil(width x components x bits / 8)) at %d points of the parameter space" % npts, ids0.where(),
+           what="image_data_stream takes the wrong number of data bytes for an inline image: W=%s H=%s BPC=%s components=%s gives %s, the rows padded to whole bytes need %s" % (badlen[0] if badlen else ("?",) * 6))
     # ... and the colour space names of Table 93 (full names and abbreviations) are all accepted
     ids = F.fn("parser::image_data_stream")
     names = set()
@@ -168,6 +228,11 @@ def _run(ctx):
 def op_const_(o):
     from mir import op_const
     return op_const(o)
+
+
+def op_place_(o):
+    from mir import op_place
+    return op_place(o)
 
 
 def run(ctx):
